@@ -350,8 +350,33 @@ def replay(case):
     acc = core.Acc("C19")
     if "probe" in case:
         probe_patterns(acc, [case["probe"]], "replay")
-    elif "chain" in case or "text" in case:
-        modifier_chains(acc, True)
+    elif "chain" in case:
+        R, T = _lib()
+        w, pats = R.rules["ruleEarlyLatePOD"]
+        pid = pred_id(pats[0])
+        tv = T.Time(POD=case["chain"][0])
+        for f in case["chain"][1:]:
+            mm = R._regex[pid].fullmatch(f)
+            if mm is None:
+                return None
+            try:
+                tv = w(dt.datetime(2020, 3, 4, 12, 0), T.RegexMatch(pid, mm), tv)
+            except Exception as e:
+                return ("modifier-chain-raises:" + type(e).__name__, repr(e))
+            if tv is None:
+                return None
+            if tv.POD not in T.pod_hours:
+                return ("modifier-chain-builds-unknown-part-of-day", "{} -> {!r}".format(case["chain"], tv.POD))
+        return None
+    elif "text" in case:
+        R, T = _lib()
+        m = core.load_repo()
+        try:
+            cands = [c for c in m.ctparse_gen(case["text"], dt.datetime(2020, 3, 4, 12, 0), timeout=0, latent_time=False) if c]
+        except Exception as e:
+            return ("modifier-text-raises:" + type(e).__name__, repr(e))
+        bad = [c for c in cands for tv in _times(c.resolution) if tv.POD is not None and tv.POD not in T.pod_hours]
+        return ("parser-builds-unknown-part-of-day", repr(bad[0].resolution)) if bad else None
     elif "token" in case:
         vocabulary(acc)
     elif case.get("check") == "rule-can-fire":
